@@ -542,7 +542,76 @@ def run_sites(ctx, case):
         if exc is None:
             ctx.fail(f"{site}/accepts-invalid", f"{site}: invalid text ({len(s)} chars, encodable={cp1252.encodable(s)}) "
                                                 f"was written ({len(out)} bytes) instead of ValueError")
+        elif cp1252.encodable(s) and len(s) >= w:
+            # refused because it is too long: then none of it may be in the stream - "never written without its terminator, never spills"
+            make, attr = _site_objects()[site]
+            obj = make("ok")
+            setattr(obj, attr, s)
+            stream = io.BytesIO()
+            try:
+                obj._write(stream)
+            except Exception:  # noqa
+                pass
+            enc = cp1252.encode(s)
+            if enc[:w] in stream.getvalue():
+                ctx.fail(f"{site}/refused-text-left-in-stream", f"{site}: text of {len(s)} chars was refused with ValueError, but {w} bytes of it are in the stream "
+                                                                f"({stream.tell()} bytes written, no terminator)")
     ctx.case(case, True, labels=(site, "valid" if valid else "refused"))
+
+
+FILE_COMMENTS = ["", " ", "x", "Generated by basicTDF", "caf\u00e9 \u20ac", "a\r\nb", "tab\tend ", "c" * 255, "0", "None"]
+
+
+def enum_file_comments(tier):
+    """the entry comment through the FILE interface: a block added with comment c1 (or none), then replaced with comment c2 (or none),
+    by replace_block or by the setter; every pair from a pool that has the empty string, blanks, the default text and the longest text"""
+    for c1 in [None] + FILE_COMMENTS:
+        for c2 in [None] + FILE_COMMENTS:
+            for via in ("replace_block", "setter"):
+                yield {"c1": c1, "c2": c2, "via": via}
+
+
+def run_file_comments(ctx, case):
+    import os
+
+    from basictdf import Tdf
+
+    from .. import env
+    from .c07 import labelled_spec
+
+    c1, c2, via = case["c1"], case["c2"], case["via"]
+    d = env.fresh_dir()
+    try:
+        path = os.path.join(d, "c.tdf")
+        t = Tdf.new(path)
+        with t.allow_write() as w_:
+            if c1 is None:
+                w_.add_block(specs.build(labelled_spec("events", 1)))
+            else:
+                w_.add_block(specs.build(labelled_spec("events", 1)), c1)
+        want1 = "Generated by basicTDF" if c1 is None else c1
+        got1 = reftdf.parse_container(open(path, "rb").read())["entries"][0]["comment"]
+        if got1 != want1:
+            ctx.fail("file-comment/add/differs", f"add_block with comment {c1!r}: the entry holds {got1!r}")
+        with Tdf(path).allow_write() as w_:
+            if via == "setter":
+                w_.events = specs.build(labelled_spec("events", 2))
+                want2 = want1   # the setter takes no comment: the previous one stays
+            elif c2 is None:
+                w_.replace_block(specs.build(labelled_spec("events", 2)))
+                want2 = want1
+            else:
+                w_.replace_block(specs.build(labelled_spec("events", 2)), c2)
+                want2 = c2
+        got2 = reftdf.parse_container(open(path, "rb").read())["entries"][0]["comment"]
+        if got2 != want2:
+            ctx.fail("file-comment/replace/differs", f"block added with comment {c1!r}, then replaced ({via}) with comment {c2!r}: the entry holds {got2!r}, expected {want2!r}")
+        with Tdf(path) as r:
+            if r.entries[0].comment != want2:
+                ctx.fail("file-comment/read-back/differs", f"after reopening, the entry comment reads {r.entries[0].comment!r}, expected {want2!r}")
+    finally:
+        env.rmdir(d)
+    ctx.case(case, c2 is not None or c1 is not None, labels=["file-comments", via])
 
 
 def enum_site_pairs(tier):
@@ -567,6 +636,9 @@ SUBS = [
     Sub("block-sites-pairs", run_sites, kind="enum", enumerate=enum_site_pairs, shards=(4, 16),
         rule="each of the 9 string sites x every ordered pair of 28 characters that codecs / escapes / line-ending handling / trimming treat specially x 4 placements "
              "(finite product, enumerated completely): write, exact bytes, read back, read back with garbage behind the terminator"),
+    Sub("file-comments", run_file_comments, kind="enum", enumerate=enum_file_comments, shards=(4, 8),
+        rule="entry comments through the file interface: add_block with c1, then replace_block / setter with c2, for every pair from {none, '', ' ', 'x', the default text, "
+             "non-ASCII, CR LF, trailing blank, 255 chars, '0', 'None'}; raw entry bytes and the reopened file; finite, enumerated"),
     Sub("relabel", run_relabel, strategy=relabel_strategy, budget=(1200, 30000), shards=(2, 16),
         rule="each of the 9 string sites: ONE item object written, its text attribute changed (shorter / longer / boundary / too long / not encodable / empty), written again: "
              "the second write carries exactly the new text or raises ValueError"),
